@@ -590,7 +590,7 @@ def run(env: Env) -> Outcome:
             cases.append({"kind": "raw", "op": op})
     # extension: tag side, histories, chains, publish side (own budget; the stream above is unchanged)
     cases += TG.tag_corpus(V)
-    for _ in range(env.budget(1100, 120000)):
+    for _ in range(env.budget(1100, 80000)):
         m = rng.random()
         if m < 0.35:
             cases.append(TG.make_tag_case(rng, gen_ver, canon_semver, canon_pep, gen_garbage))
